@@ -89,7 +89,8 @@ Record(s) ==
   LET c == Class(s) IN
   [id |-> idx, kind |-> s.kind, op |-> s.op, side |-> s.side, a |-> s.a, b |-> s.b, p |-> s.p, ua |-> s.ua, ub |-> s.ub,
    cls |-> c, obs |-> IF c = "ok" THEN Obs(s) ELSE <<>>,
-   mach |-> IF c = "ok" /\ Exact THEN Mach(s) ELSE None,
+   mach |-> IF c = "ok" /\ (Exact \/ s.kind # "op") THEN Mach(s) ELSE None,
+   machknown |-> c = "ok" /\ (Exact \/ s.kind # "op"),
    tags |-> IF c = "ok" THEN Tags(s) ELSE {}]
 
 EmitInv == (stage = 2 /\ Emit) => PrintT(ToJson(Record(sc)))
